@@ -337,6 +337,8 @@ func (w *World) startServer(o *OptSpec, att *AttachSpec) {
 		if sock.ReadyState() == "closed" && len(w.evs(alias, "close")) == 0 {
 			w.recx(Ev{Sess: alias, Kind: "close-before-attach", St: sockState(sock)})
 		}
+		// an application that does something with the session right away (refuses it, greets it, takes its time)
+		w.reentrant(alias, sock, "connection")
 	})
 	srv.On("connection_error", func(a ...any) {
 		em, _ := a[0].(*types.ErrorMessage)
